@@ -184,11 +184,14 @@ Exec(s, op, dev) == UNION {RunAll(c, op.k, op.how) : c \in Begin(s, op.kind, op.
 (* code's own numbering of its store operations: when a failure was        *)
 (* injected somewhere in a run, every final configuration of a run stopped *)
 (* at SOME store operation (or not at all, if the run had fewer of them)   *)
-(* is a behaviour.                                                         *)
+(* is a behaviour.  An operation that Begin refuses may have touched a      *)
+(* store before refusing (the statement does not forbid it), so with an    *)
+(* injected failure it may also end as that failure, nothing changed.      *)
 MaxStoreOps(s, op) == 2 * Cardinality(StagedOf(s, op.tx)) + 1
 ExecAny(s, op, dev) ==
   IF op.k = 0 THEN Exec(s, op, dev)
   ELSE UNION {Exec(s, [op EXCEPT !.k = i], dev) : i \in 1..(MaxStoreOps(s, op) + 1)}
+       \cup {Stop(c, op.how) : c \in {d \in Begin(s, op.kind, op.tx, dev) : ~Running(d.run)}}
 
 -----------------------------------------------------------------------------
 (* the statement, as predicates of a state *)
